@@ -200,6 +200,48 @@ theorem history_equiv_fresh (s : State) (pre ops : List Op) (l : Option Block) :
   · rw [run_shape]; rfl
   · rw [run_epoch]; rfl
 
+/-! ### robustness classes R8, R11, R13 on the model -/
+
+/-- R11 (non-mutating API): a query — `get_samples()`, the `shape`/`L`/`Ts`/`Fd`
+    properties, `repr`, `==`, `copy`, `deepcopy`, pickling,
+    `get_similar_fading_generator()` — changes nothing and produces nothing, and
+    a history with any number of queries in it ends in the same state and
+    produces the same blocks as the history without them. -/
+theorem queries_invisible (s : State) (ops : List Op) :
+    step s .query = s ∧ produced s .query = none ∧
+    run s (dropQueries ops) = run s ops ∧ blocks s (dropQueries ops) = blocks s ops :=
+  ⟨rfl, rfl, run_dropQueries s ops, blocks_dropQueries s ops⟩
+
+/-- R13 (derived objects): a copy taken after the history `pre` (copy, deepcopy,
+    pickle round trip: the same state value) answers every later history `child`
+    exactly as the original would have answered it at that point — whatever the
+    parent is asked afterwards does not appear — and using the copy does not
+    change what the parent produces (`parent`). -/
+theorem derived_copy_replays_history (s : State) (pre child parent : List Op) :
+    trace (run s pre) child = (trace s (pre ++ child)).drop pre.length ∧
+    trace (run s pre) parent = (trace s (pre ++ parent)).drop pre.length :=
+  ⟨(trace_drop s pre child).symm, (trace_drop s pre parent).symm⟩
+
+/-- R8 (constructor path vs setter path): a generator built with another shape
+    and then given the shape `a` through the setter has the same counter and
+    configured shape as one built with `a`, so every later request returns a
+    block of the same shape holding the same sample numbers (the two differ in
+    the phase-draw number only: the setter draws once more). -/
+theorem constructor_vs_setter (a a₀ : ShapeArg) (ops : List Op) :
+    (step (construct a₀) (.setShape a)).k = (construct a).k ∧
+    (step (construct a₀) (.setShape a)).shape = (construct a).shape ∧
+    (trace (step (construct a₀) (.setShape a)) ops).map (Option.map Block.geometry) =
+      (trace (construct a) ops).map (Option.map Block.geometry) :=
+  ⟨rfl, rfl, trace_geometry_congr (step (construct a₀) (.setShape a)) (construct a) rfl rfl ops⟩
+
+/-- R8 (argument forms): the default request, an explicit `None` and an explicit
+    `1` are the same request; `int n` and the 1-tuple `(n,)` are the same shape. -/
+theorem default_forms_agree (s : State) (n : Nat) :
+    step s (.gen none) = step s (.gen (some 1)) ∧
+    step s (.setShape (.int n)) = step s (.setShape (.tuple [n])) ∧
+    construct (.int n) = construct (.tuple [n]) :=
+  ⟨rfl, rfl, rfl⟩
+
 /-- Sample number `k` is taken at `k · Ts`: the process starts at time 0 and
     consecutive samples — inside a request or across a request boundary — are
     exactly `Ts` apart. -/
